@@ -1,4 +1,5 @@
 import GraafVerif.Proof.ComposeRel
+import GraafVerif.Proof.ComposeDfs
 import GraafVerif.Thm.C03
 import GraafVerif.Thm.C04
 import GraafVerif.Thm.C05
@@ -140,6 +141,44 @@ theorem dfsFixedHolds_of {g : Graph} {A : Rel} (hA : ∀ u v, g.A u v ↔ A u v)
   unfold DfsFixedHolds
   rw [← exact_eq g]
   exact ⟨⟨e1, a1, a2⟩, ⟨e2, b1, b2⟩, ⟨e3, c1, c2⟩⟩
+
+/-- The preorder clause of C06 for TODAY's code, entirely over the relation `A` and the order `n`
+(`RIsDfsPreorder`, `Proof/ComposeDfs.lean`): what `Dfs` yields is a depth-first preorder prefix of
+the digraph `A` from `S`; `DfsDist` / `DfsPred` report exactly the prescribed depths / parents;
+`predecessors()` is the forest of the annotation. -/
+def DfsPreorderTodayR (A : Rel) (n : Nat) (S : List Nat) (g : Graph) : Prop :=
+  ∃ ann, RIsDfsPreorder A S (Dfs.dfs g S).verts ann ∧
+    (Dfs.dfsDist g S).items = ann.map (fun a => (a.1, a.2.2)) ∧
+    (Dfs.dfsPred g S).items = ann.map (fun a => (a.1, a.2.1)) ∧
+    Dfs.predecessors g S = Dfs.forestOf n ann
+
+theorem dfsPreorderTodayR_of {g : Graph} {A : Rel} (hA : ∀ u v, g.A u v ↔ A u v) {S : List Nat}
+    (hg : g.WF) (hS : ∀ s ∈ S, s < g.n) (hnd : S.Nodup) : DfsPreorderTodayR A g.n S g := by
+  obtain rfl : g.A = A := rel_ext hA
+  obtain ⟨_, ann, h1, h2, h3, h4⟩ := C06.dfs_valid_prefix g S ⟨hg, hnd, hS⟩
+  exact ⟨ann, (annotate_iff g S _ ann).1 h1, h2, h3, h4⟩
+
+/-- C06 in full for the corrected variant, entirely over `A` and `n`: termination on an empty
+stack, exactly the reachable vertices once each, in a depth-first preorder, with the prescribed
+depths (`DfsDist`), parents (`DfsPred`) and forest (`predecessors()`). -/
+def DfsFixedHoldsR (A : Rel) (n : Nat) (S : List Nat) (g : Graph) : Prop :=
+    ((Dfs.dfsFixed g S).ending = .done ∧ RExact A S (Dfs.dfsFixed g S).verts ∧
+      ∃ ann, RIsDfsPreorder A S (Dfs.dfsFixed g S).verts ann) ∧
+    ((Dfs.dfsDistFixed g S).ending = .done ∧ RExact A S ((Dfs.dfsDistFixed g S).items.map (·.1)) ∧
+      ∃ ann, RIsDfsPreorder A S ((Dfs.dfsDistFixed g S).items.map (·.1)) ann ∧
+        (Dfs.dfsDistFixed g S).items = ann.map (fun a => (a.1, a.2.2))) ∧
+    ((Dfs.dfsPredFixed g S).ending = .done ∧ RExact A S ((Dfs.dfsPredFixed g S).items.map (·.1)) ∧
+      ∃ ann, RIsDfsPreorder A S ((Dfs.dfsPredFixed g S).items.map (·.1)) ann ∧
+        (Dfs.dfsPredFixed g S).items = ann.map (fun a => (a.1, a.2.1)) ∧
+        Dfs.predecessorsFixed g S = Dfs.forestOf n ann)
+
+theorem dfsFixedHoldsR_of {g : Graph} {A : Rel} (hA : ∀ u v, g.A u v ↔ A u v) {S : List Nat}
+    (hg : g.WF) (hS : ∀ s ∈ S, s < g.n) (hnd : S.Nodup) : DfsFixedHoldsR A g.n S g := by
+  obtain ⟨⟨e1, x1, v1⟩, ⟨e2, x2, a2, p2, q2⟩, ⟨e3, x3, a3, p3, q3, r3⟩⟩ := dfsFixedHolds_of hA hg hS hnd
+  obtain rfl : g.A = A := rel_ext hA
+  exact ⟨⟨e1, x1, (validDfsPreorder_iff g S _).1 v1⟩,
+    ⟨e2, x2, a2, (annotate_iff g S _ a2).1 p2, q2⟩,
+    ⟨e3, x3, a3, (annotate_iff g S _ a3).1 p3, q3, r3⟩⟩
 
 /-! ## C09 — Tarjan (any finite vertex-id set) -/
 
@@ -324,6 +363,52 @@ theorem fwHolds_of {g : WGraph} {W : WRel} (hW : ∀ u v w, g.A u v w ↔ W u v 
   rw [← wreachFrom_eq g, ← isMinDist_eq g]
   exact h
 
+/-! ## Repeated calls on the same algorithm object (`tarjan_every_call`, `johnson_repeat_statement`,
+`bfm_repeat_const`, `fw_twice`) -/
+
+/-- EVERY call of `components()` on the same `Tarjan` value returns what the first one returns:
+the partition of `verts` into the strongly connected components of `A`. -/
+def TarjanEveryCallHolds (verts : List Nat) (A : Rel) (g : Tarjan.VGraph) : Prop :=
+  ∀ k, Tarjan.componentsAt g (k + 1) = Tarjan.components g ∧
+    ∃ cs, Tarjan.componentsAt g (k + 1) = .ret cs ∧ RIsSCCPartition verts A cs
+
+theorem tarjanEveryCallHolds_of {g : Tarjan.VGraph} {A : Rel} (hA : ∀ u v, v ∈ g.out u ↔ A u v)
+    (hcl : g.Closed) : TarjanEveryCallHolds g.verts A g := by
+  obtain rfl : g.toGraph.A = A := rel_ext hA
+  intro k
+  obtain ⟨e, cs, hcs, hp⟩ := C09.tarjan_every_call g hcl k
+  exact ⟨e, cs, hcs, (isSCCPartition_iff g cs).1 hp⟩
+
+/-- EVERY one of `k` consecutive `circuits()` calls on the same `Johnson75` value returns each
+elementary circuit of `A` exactly once, in canonical form, and nothing else. -/
+def JohnsonRepeatHolds (A : Rel) (g : Graph) : Prop :=
+  ∀ k, (Johnson.circuitsRepeat (Johnson.AM.ofGraph g) k (Johnson.JState.new (Johnson.AM.ofGraph g))).length = k ∧
+    ∀ out ∈ Johnson.circuitsRepeat (Johnson.AM.ofGraph g) k (Johnson.JState.new (Johnson.AM.ofGraph g)),
+      out.Nodup ∧ ∀ c, c ∈ out ↔ RIsCanonicalElemCircuit A c
+
+theorem johnsonRepeatHolds_of {g : Graph} {A : Rel} (hA : ∀ u v, g.A u v ↔ A u v)
+    (hg : g.WF) (hl : Johnson.NoLoops g) (hr : Johnson.RowsNodup g) : JohnsonRepeatHolds A g := by
+  obtain rfl : g.A = A := rel_ext hA
+  intro k
+  have h := C10.johnson_repeat_statement g hg hl hr k
+  rw [isCanonicalElemCircuit_eq g] at h
+  exact h
+
+/-- `k` calls of `BellmanFordMoore::distances()` on the same object all return what one call
+returns (which `BfmHolds` characterises). -/
+def BfmRepeatHolds (s : Nat) (g : WGraph) : Prop :=
+  ∀ k r, Bfm.distances g s = .ret r → Bfm.distancesRepeat g s k = some (List.replicate k r)
+
+theorem bfmRepeatHolds_of {g : WGraph} {s : Nat} (hg : g.WF) (hs : s < g.n) : BfmRepeatHolds s g :=
+  fun k r h => C07.bfm_repeat_const g hg s hs k r h
+
+/-- A second call of `FloydWarshall::distances()` returns the same matrix (which `FwHolds`
+characterises). -/
+theorem fwTwice_of {g : WGraph} {W : WRel} (hW : ∀ u v w, g.A u v w ↔ W u v w)
+    (hg : g.WF) (hf : g.Functional) (hnc : ∀ x, ¬ RNegCycleAt W x) : Fw.distances2 g = Fw.distances g := by
+  obtain rfl : g.A = W := wrel_ext hW
+  exact C08.fw_twice g hg hf (fun x => by rw [negCycleAt_eq g]; exact hnc x)
+
 /-! ## Bundles -/
 
 /-- Everything C04, C05 (BFS half) and C06 say about the source-based traversals of the `Graph`
@@ -334,11 +419,15 @@ structure TraversalsHold (A : Rel) (n : Nat) (S : List Nat) (g : Graph) : Prop w
   bfsPred : 0 < n → BfsPredHolds A n S g
   dfsToday : DfsTodayHolds A S g
   dfsFixed : DfsFixedHolds A S g
+  /-- the preorder clauses with NOTHING on the specification side but `A`, `n`, `S` -/
+  dfsTodayR : DfsPreorderTodayR A n S g
+  dfsFixedR : DfsFixedHoldsR A n S g
 
 theorem traversalsHold_of {g : Graph} {A : Rel} (hA : ∀ u v, g.A u v ↔ A u v) {S : List Nat}
     (hg : g.WF) (hS : ∀ s ∈ S, s < g.n) (hnd : S.Nodup) : TraversalsHold A g.n S g :=
   ⟨bfsHolds_of hA hg hS hnd, fun hn => bfsPredHolds_of hA hg hn hS hnd,
-   dfsTodayHolds_of hA hg hS hnd, dfsFixedHolds_of hA hg hS hnd⟩
+   dfsTodayHolds_of hA hg hS hnd, dfsFixedHolds_of hA hg hS hnd,
+   dfsPreorderTodayR_of hA hg hS hnd, dfsFixedHoldsR_of hA hg hS hnd⟩
 
 /-- Everything C03, C05 (Dijkstra half), C07, C08 say about the weighted algorithms on the
 `WGraph` `g`, w.r.t. the weighted relation `W` on `n` vertices. -/
@@ -350,10 +439,14 @@ structure WeightedHold (W : WRel) (n : Nat) (g : WGraph) : Prop where
   bfm : ∀ s, s < n → BfmHolds W n s g
   /-- no negative circuit: Floyd-Warshall -/
   fw : (∀ x, ¬ RNegCycleAt W x) → ∀ u v, u < n → v < n → FwHolds W n u v g
+  /-- repeated calls on the same object return the same -/
+  bfmRepeat : ∀ s, s < n → BfmRepeatHolds s g
+  fwTwice : (∀ x, ¬ RNegCycleAt W x) → Fw.distances2 g = Fw.distances g
 
 theorem weightedHold_of {g : WGraph} {W : WRel} (hW : ∀ u v w, g.A u v w ↔ W u v w)
     (hg : g.WF) (hf : g.Functional) : WeightedHold W g.n g := by
-  refine ⟨?_, fun s hs => bfmHolds_of hW hg hs, fun hnc u v hu hv => fwHolds_of hW hg hf hnc hu hv⟩
+  refine ⟨?_, fun s hs => bfmHolds_of hW hg hs, fun hnc u v hu hv => fwHolds_of hW hg hf hnc hu hv,
+    fun s hs => bfmRepeatHolds_of hg hs, fun hnc => fwTwice_of hW hg hf hnc⟩
   intro hnn S hS hnd
   have hyp : Dijkstra.Hyp g S := ⟨hg, fun u v w h => hnn u v w ((hW u v w).1 h), hS, hnd⟩
   exact ⟨dijkstraHolds_of hW hyp, dijkstraPredHolds_of hW hyp⟩
